@@ -1,11 +1,450 @@
-// ---- shared specification: pending-ack range list (spec functions only) ----
+// ---- shared specification: pending-ack range list (spec functions and lemmas; no executable code) ----
+pub open spec fn in_r(r: core::ops::Range<u64>, x: u64) -> bool {
+    r.start <= x && x < r.end
+}
+
+#[verifier::opaque]
 pub open spec fn acks_wf(s: Seq<core::ops::Range<u64>>) -> bool {
     &&& forall|i: int| 0 <= i < s.len() ==> (#[trigger] s[i]).start < s[i].end && s[i].end <= 0x4000_0000_0000_0000
     &&& forall|i: int, j: int| 0 <= i < j < s.len() ==> (#[trigger] s[i]).end < (#[trigger] s[j]).start   // ascending, disjoint, not adjacent
 }
 
-/// the range list denotes this set of packet sequence numbers
+/// the range list denotes this set of packet sequence numbers (opaque: unfolded only inside the lemmas below)
+#[verifier::opaque]
 pub open spec fn acks_cover(s: Seq<core::ops::Range<u64>>, x: u64) -> bool {
-    exists|i: int| 0 <= i < s.len() && (#[trigger] s[i]).start <= x && x < s[i].end
+    exists|i: int| 0 <= i < s.len() && in_r(#[trigger] s[i], x)
+}
+
+pub proof fn lemma_cover_push(s: Seq<core::ops::Range<u64>>, r: core::ops::Range<u64>)
+    ensures forall|x: u64| #![trigger acks_cover(s.push(r), x)] acks_cover(s.push(r), x) <==> acks_cover(s, x) || in_r(r, x),
+{
+    reveal(acks_cover);
+    let t = s.push(r);
+    assert forall|x: u64| acks_cover(t, x) <==> acks_cover(s, x) || in_r(r, x) by {
+        if acks_cover(t, x) {
+            let i = choose|i: int| 0 <= i < t.len() && in_r(#[trigger] t[i], x);
+            if i < s.len() { assert(in_r(s[i], x)); }
+        }
+        if acks_cover(s, x) {
+            let i = choose|i: int| 0 <= i < s.len() && in_r(#[trigger] s[i], x);
+            assert(in_r(t[i], x));
+        }
+        if in_r(r, x) { assert(in_r(t[s.len() as int], x)); }
+    }
+}
+
+pub proof fn lemma_cover_insert(s: Seq<core::ops::Range<u64>>, k: int, r: core::ops::Range<u64>)
+    requires 0 <= k <= s.len(),
+    ensures forall|x: u64| #![trigger acks_cover(s.insert(k, r), x)] acks_cover(s.insert(k, r), x) <==> acks_cover(s, x) || in_r(r, x),
+{
+    reveal(acks_cover);
+    let t = s.insert(k, r);
+    assert forall|x: u64| acks_cover(t, x) <==> acks_cover(s, x) || in_r(r, x) by {
+        if acks_cover(t, x) {
+            let i = choose|i: int| 0 <= i < t.len() && in_r(#[trigger] t[i], x);
+            if i < k { assert(in_r(s[i], x)); } else if i > k { assert(in_r(s[i - 1], x)); }
+        }
+        if acks_cover(s, x) {
+            let i = choose|i: int| 0 <= i < s.len() && in_r(#[trigger] s[i], x);
+            if i < k { assert(in_r(t[i], x)); } else { assert(in_r(t[i + 1], x)); }
+        }
+        if in_r(r, x) { assert(in_r(t[k], x)); }
+    }
+}
+
+/// replacing range k by a range that contains it adds exactly the new elements
+pub proof fn lemma_cover_widen(s: Seq<core::ops::Range<u64>>, k: int, r: core::ops::Range<u64>)
+    requires 0 <= k < s.len(), r.start <= s[k].start, s[k].end <= r.end,
+    ensures forall|x: u64| #![trigger acks_cover(s.update(k, r), x)] acks_cover(s.update(k, r), x) <==> acks_cover(s, x) || in_r(r, x),
+{
+    reveal(acks_cover);
+    let t = s.update(k, r);
+    assert forall|x: u64| acks_cover(t, x) <==> acks_cover(s, x) || in_r(r, x) by {
+        if acks_cover(t, x) {
+            let i = choose|i: int| 0 <= i < t.len() && in_r(#[trigger] t[i], x);
+            if i != k { assert(in_r(s[i], x)); }
+        }
+        if acks_cover(s, x) {
+            let i = choose|i: int| 0 <= i < s.len() && in_r(#[trigger] s[i], x);
+            assert(in_r(t[i], x));
+        }
+        if in_r(r, x) { assert(in_r(t[k], x)); }
+    }
+}
+
+/// removing a range that is contained in another range of the list loses nothing
+pub proof fn lemma_cover_remove_redundant(s: Seq<core::ops::Range<u64>>, k: int, m: int)
+    requires 0 <= k < s.len(), 0 <= m < s.len(), m != k, s[m].start <= s[k].start, s[k].end <= s[m].end,
+    ensures forall|x: u64| #![trigger acks_cover(s.remove(k), x)] acks_cover(s.remove(k), x) <==> acks_cover(s, x),
+{
+    reveal(acks_cover);
+    let t = s.remove(k);
+    assert forall|x: u64| acks_cover(t, x) <==> acks_cover(s, x) by {
+        if acks_cover(t, x) {
+            let i = choose|i: int| 0 <= i < t.len() && in_r(#[trigger] t[i], x);
+            if i < k { assert(in_r(s[i], x)); } else { assert(in_r(s[i + 1], x)); }
+        }
+        if acks_cover(s, x) {
+            let i = choose|i: int| 0 <= i < s.len() && in_r(#[trigger] s[i], x);
+            let j = if i == k { m } else { i };
+            assert(in_r(s[j], x));
+            if j < k { assert(in_r(t[j], x)); } else { assert(in_r(t[j - 1], x)); }
+        }
+    }
+}
+
+/// removing range k of a well-formed list removes exactly its elements
+pub proof fn lemma_cover_remove(s: Seq<core::ops::Range<u64>>, k: int)
+    requires 0 <= k < s.len(), acks_wf(s),
+    ensures
+        forall|x: u64| #![trigger acks_cover(s.remove(k), x)] acks_cover(s.remove(k), x) <==> acks_cover(s, x) && !in_r(s[k], x),
+        acks_wf(s.remove(k)),
+{
+    reveal(acks_cover);
+    reveal(acks_wf);
+    let t = s.remove(k);
+    assert forall|x: u64| acks_cover(t, x) <==> acks_cover(s, x) && !in_r(s[k], x) by {
+        if acks_cover(t, x) {
+            let i = choose|i: int| 0 <= i < t.len() && in_r(#[trigger] t[i], x);
+            if i < k { assert(in_r(s[i], x)); } else { assert(in_r(s[i + 1], x)); }
+        }
+        if acks_cover(s, x) && !in_r(s[k], x) {
+            let i = choose|i: int| 0 <= i < s.len() && in_r(#[trigger] s[i], x);
+            if i < k { assert(in_r(t[i], x)); } else { assert(in_r(t[i - 1], x)); }
+        }
+    }
+    assert forall|i: int, j: int| 0 <= i < j < t.len() implies (#[trigger] t[i]).end < (#[trigger] t[j]).start by {
+        let i2 = if i < k { i } else { i + 1 };
+        let j2 = if j < k { j } else { j + 1 };
+        assert(s[i2].end < s[j2].start);
+    }
+}
+
+/// in a well-formed list everything in range 0 is below everything in the other ranges
+pub proof fn lemma_first_range_is_lowest(s: Seq<core::ops::Range<u64>>)
+    requires acks_wf(s), s.len() >= 1,
+    ensures forall|x: u64, y: u64| in_r(s[0], x) && acks_cover(s.remove(0), y) ==> x < y,
+{
+    reveal(acks_cover);
+    reveal(acks_wf);
+    let t = s.remove(0);
+    assert forall|x: u64, y: u64| in_r(s[0], x) && acks_cover(t, y) implies x < y by {
+        let i = choose|i: int| 0 <= i < t.len() && in_r(#[trigger] t[i], y);
+        assert(t[i] == s[i + 1]);
+        assert(s[0].end < s[i + 1].start);
+    }
+}
+pub proof fn lemma_cover_intro(s: Seq<core::ops::Range<u64>>, i: int, x: u64)
+    requires 0 <= i < s.len(), in_r(s[i], x),
+    ensures acks_cover(s, x),
+{
+    reveal(acks_cover);
+}
+
+pub proof fn lemma_cover_empty(s: Seq<core::ops::Range<u64>>)
+    requires s.len() == 0,
+    ensures forall|x: u64| !acks_cover(s, x),
+{
+    reveal(acks_cover);
+}
+
+/// what add_pending_ack(q) must achieve, as one predicate over (list before, list after, q)
+#[verifier::opaque]
+pub open spec fn ack_added(o: Seq<core::ops::Range<u64>>, f: Seq<core::ops::Range<u64>>, q: u64) -> bool {
+    &&& acks_wf(f)
+    &&& f.len() <= 64
+    &&& forall|x: u64| acks_cover(f, x) ==> x == q || acks_cover(o, x)
+    &&& (o.len() < 64 ==> forall|x: u64| x == q || acks_cover(o, x) ==> acks_cover(f, x))
+    &&& forall|x: u64, y: u64| (x == q || acks_cover(o, x)) && !acks_cover(f, x) && acks_cover(f, y) ==> x < y
+}
+
+pub open spec fn single(q: u64) -> core::ops::Range<u64> {
+    core::ops::Range { start: q, end: (q + 1) as u64 }
+}
+
+/// cap at 64 ranges by dropping the lowest one
+pub open spec fn capped(t: Seq<core::ops::Range<u64>>) -> Seq<core::ops::Range<u64>> {
+    if t.len() > 64 { t.remove(0) } else { t }
+}
+
+/// t is well formed and denotes exactly old + {q}  ==>  capped(t) is a correct result
+pub proof fn lemma_single(q: u64)
+    requires q < 0x4000_0000_0000_0000 - 1,
+    ensures forall|x: u64| #![trigger in_r(single(q), x)] in_r(single(q), x) <==> x == q,
+{
+}
+
+pub proof fn lemma_added_from_exact(o: Seq<core::ops::Range<u64>>, t: Seq<core::ops::Range<u64>>, q: u64)
+    requires
+        acks_wf(t), t.len() <= o.len() + 1, o.len() <= 64,
+        forall|x: u64| #![trigger acks_cover(t, x)] acks_cover(t, x) <==> x == q || acks_cover(o, x),
+    ensures ack_added(o, capped(t), q),
+{
+    reveal(ack_added);
+    if t.len() > 64 {
+        lemma_cover_remove(t, 0);
+        lemma_first_range_is_lowest(t);
+        let f = t.remove(0);
+        assert forall|x: u64, y: u64| (x == q || acks_cover(o, x)) && !acks_cover(f, x) && acks_cover(f, y) implies x < y by {
+            assert(acks_cover(t, x));
+            assert(in_r(t[0], x));
+        }
+    }
+}
+
+pub proof fn lemma_path_empty(o: Seq<core::ops::Range<u64>>, q: u64)
+    requires o.len() == 0, q < 0x4000_0000_0000_0000 - 1,
+    ensures ack_added(o, o.push(single(q)), q),
+{
+    let t = o.push(single(q));
+    lemma_cover_push(o, single(q));
+    lemma_single(q);
+    lemma_cover_empty(o);
+    assert(acks_wf(t)) by { reveal(acks_wf); }
+    lemma_added_from_exact(o, t, q);
+}
+
+pub proof fn lemma_path_contained(o: Seq<core::ops::Range<u64>>, q: u64, i: int)
+    requires acks_wf(o), o.len() <= 64, 0 <= i < o.len(), in_r(o[i], q),
+    ensures ack_added(o, o, q),
+{
+    lemma_cover_intro(o, i, q);
+    lemma_added_from_exact(o, o, q);
+}
+
+pub proof fn lemma_path_extend_left(o: Seq<core::ops::Range<u64>>, q: u64, i: int)
+    requires
+        acks_wf(o), o.len() <= 64, 0 <= i < o.len(), q < 0x4000_0000_0000_0000 - 1,
+        forall|k: int| 0 <= k < i ==> (#[trigger] o[k]).end < q,
+        o[i].start == q + 1,
+    ensures ack_added(o, o.update(i, core::ops::Range { start: q, end: o[i].end }), q),
+{
+    let r = core::ops::Range { start: q, end: o[i].end };
+    let t = o.update(i, r);
+    assert(o[i].start < o[i].end) by { reveal(acks_wf); }
+    lemma_cover_widen(o, i, r);
+    assert(in_r(r, q));
+    assert forall|x: u64| in_r(r, x) implies x == q || acks_cover(o, x) by {
+        if x != q { assert(in_r(o[i], x)); lemma_cover_intro(o, i, x); }
+    }
+    assert(acks_wf(t)) by {
+        reveal(acks_wf);
+        assert forall|a: int, b: int| 0 <= a < b < t.len() implies (#[trigger] t[a]).end < (#[trigger] t[b]).start by {
+            if b == i { assert(o[a].end < q); } else if a == i { assert(o[i].end < o[b].start); } else { assert(o[a].end < o[b].start); }
+        }
+    }
+    lemma_added_from_exact(o, t, q);
+}
+
+pub proof fn lemma_path_extend_right(o: Seq<core::ops::Range<u64>>, q: u64, i: int)
+    requires
+        acks_wf(o), o.len() <= 64, 0 <= i < o.len(), q < 0x4000_0000_0000_0000 - 1,
+        o[i].end == q,
+        i + 1 < o.len() ==> o[i + 1].start != q + 1,
+    ensures ack_added(o, o.update(i, core::ops::Range { start: o[i].start, end: (q + 1) as u64 }), q),
+{
+    let r = core::ops::Range { start: o[i].start, end: (q + 1) as u64 };
+    let t = o.update(i, r);
+    assert(o[i].start < o[i].end) by { reveal(acks_wf); }
+    lemma_cover_widen(o, i, r);
+    assert(in_r(r, q));
+    assert forall|x: u64| in_r(r, x) implies x == q || acks_cover(o, x) by {
+        if x != q { assert(in_r(o[i], x)); lemma_cover_intro(o, i, x); }
+    }
+    assert(acks_wf(t)) by {
+        reveal(acks_wf);
+        assert forall|a: int, b: int| 0 <= a < b < t.len() implies (#[trigger] t[a]).end < (#[trigger] t[b]).start by {
+            if a == i { assert(o[i].end < o[b].start); if b == i + 1 { assert(o[b].start != q + 1); } else { assert(o[i + 1].start <= o[b].start) by { assert(o[i + 1].start < o[i + 1].end); assert(i + 1 < b ==> o[i + 1].end < o[b].start); } } }
+            else if b == i { assert(o[a].end < o[i].start); } else { assert(o[a].end < o[b].start); }
+        }
+    }
+    lemma_added_from_exact(o, t, q);
+}
+
+pub proof fn lemma_path_merge(o: Seq<core::ops::Range<u64>>, q: u64, i: int)
+    requires
+        acks_wf(o), o.len() <= 64, 0 <= i, i + 1 < o.len(), q < 0x4000_0000_0000_0000 - 1,
+        o[i].end == q, o[i + 1].start == q + 1,
+    ensures ack_added(o, o.update(i, core::ops::Range { start: o[i].start, end: o[i + 1].end }).remove(i + 1), q),
+{
+    let merged = core::ops::Range { start: o[i].start, end: o[i + 1].end };
+    let u = o.update(i, merged);
+    let t = u.remove(i + 1);
+    assert(o[i].start < o[i].end && o[i + 1].start < o[i + 1].end) by { reveal(acks_wf); }
+    lemma_cover_widen(o, i, merged);
+    lemma_cover_remove_redundant(u, i + 1, i);
+    assert forall|x: u64| in_r(merged, x) implies x == q || acks_cover(o, x) by {
+        if x < q { assert(in_r(o[i], x)); lemma_cover_intro(o, i, x); } else if x > q { assert(in_r(o[i + 1], x)); lemma_cover_intro(o, i + 1, x); }
+    }
+    assert(in_r(merged, q));
+    assert(acks_wf(t)) by {
+        reveal(acks_wf);
+        assert forall|a: int, b: int| 0 <= a < b < t.len() implies (#[trigger] t[a]).end < (#[trigger] t[b]).start by {
+            let a2 = if a <= i { a } else { a + 1 };
+            let b2 = if b <= i { b } else { b + 1 };
+            if a == i { assert(o[i + 1].end < o[b2].start); } else { assert(o[a2].end < o[b2].start); }
+        }
+        assert forall|a: int| 0 <= a < t.len() implies (#[trigger] t[a]).start < t[a].end && t[a].end <= 0x4000_0000_0000_0000 by {
+            let a2 = if a <= i { a } else { a + 1 };
+            assert(o[a2].start < o[a2].end);
+        }
+    }
+    lemma_added_from_exact(o, t, q);
+}
+
+pub proof fn lemma_path_insert(o: Seq<core::ops::Range<u64>>, q: u64, i: int)
+    requires
+        acks_wf(o), o.len() <= 64, 0 <= i < o.len(), q < 0x4000_0000_0000_0000 - 1,
+        forall|k: int| 0 <= k < i ==> (#[trigger] o[k]).end < q,
+        o[i].start > q + 1,
+    ensures ack_added(o, capped(o.insert(i, single(q))), q),
+{
+    let t = o.insert(i, single(q));
+    lemma_cover_insert(o, i, single(q));
+    lemma_single(q);
+    assert(acks_wf(t)) by {
+        reveal(acks_wf);
+        assert forall|a: int, b: int| 0 <= a < b < t.len() implies (#[trigger] t[a]).end < (#[trigger] t[b]).start by {
+            let a2 = if a < i { a } else { a - 1 };
+            let b2 = if b < i { b } else { b - 1 };
+            if a != i && b != i { assert(o[a2].end < o[b2].start); }
+            else if a == i { assert(o[i].start <= o[b2].start) by { assert(o[i].start < o[i].end); assert(i < b2 ==> o[i].end < o[b2].start); } }
+            else { assert(o[a2].end < q); }
+        }
+        assert forall|a: int| 0 <= a < t.len() implies (#[trigger] t[a]).start < t[a].end && t[a].end <= 0x4000_0000_0000_0000 by {
+            let a2 = if a < i { a } else { a - 1 };
+            if a != i { assert(o[a2].start < o[a2].end); }
+        }
+    }
+    lemma_added_from_exact(o, t, q);
+}
+
+pub proof fn lemma_path_append(o: Seq<core::ops::Range<u64>>, q: u64)
+    requires
+        acks_wf(o), o.len() <= 64, q < 0x4000_0000_0000_0000 - 1,
+        forall|k: int| 0 <= k < o.len() ==> (#[trigger] o[k]).end < q,
+    ensures ack_added(o, capped(o.push(single(q))), q),
+{
+    let t = o.push(single(q));
+    lemma_cover_push(o, single(q));
+    lemma_single(q);
+    assert(acks_wf(t)) by {
+        reveal(acks_wf);
+        assert forall|a: int, b: int| 0 <= a < b < t.len() implies (#[trigger] t[a]).end < (#[trigger] t[b]).start by {
+            if b == o.len() { assert(o[a].end < q); } else { assert(o[a].end < o[b].start); }
+        }
+    }
+    lemma_added_from_exact(o, t, q);
+}
+
+/// what acked_largest(l) must achieve: exactly the sequence numbers above the horizon stay pending
+#[verifier::opaque]
+pub open spec fn ack_trimmed(o: Seq<core::ops::Range<u64>>, f: Seq<core::ops::Range<u64>>, l: u64) -> bool {
+    &&& acks_wf(f)
+    &&& f.len() <= o.len()
+    &&& forall|x: u64| acks_cover(f, x) <==> acks_cover(o, x) && x > l
+}
+
+/// loop invariant of acked_largest: only ranges entirely at or below the horizon were dropped so far
+#[verifier::opaque]
+pub open spec fn ack_prefix_dropped(o: Seq<core::ops::Range<u64>>, s: Seq<core::ops::Range<u64>>, l: u64) -> bool {
+    &&& acks_wf(s)
+    &&& s.len() <= o.len()
+    &&& forall|x: u64| acks_cover(s, x) ==> acks_cover(o, x)
+    &&& forall|x: u64| acks_cover(o, x) && x > l ==> acks_cover(s, x)
+}
+
+pub proof fn lemma_trim_init(o: Seq<core::ops::Range<u64>>, l: u64)
+    requires acks_wf(o),
+    ensures ack_prefix_dropped(o, o, l),
+{
+    reveal(ack_prefix_dropped);
+}
+
+pub proof fn lemma_trim_drop_first(o: Seq<core::ops::Range<u64>>, s: Seq<core::ops::Range<u64>>, l: u64)
+    requires ack_prefix_dropped(o, s, l), s.len() > 0, s[0].end <= l,
+    ensures ack_prefix_dropped(o, s.remove(0), l),
+{
+    reveal(ack_prefix_dropped);
+    lemma_cover_remove(s, 0);
+}
+
+pub proof fn lemma_trim_done_empty(o: Seq<core::ops::Range<u64>>, s: Seq<core::ops::Range<u64>>, l: u64)
+    requires ack_prefix_dropped(o, s, l), s.len() == 0,
+    ensures ack_trimmed(o, s, l),
+{
+    reveal(ack_prefix_dropped);
+    reveal(ack_trimmed);
+    lemma_cover_empty(s);
+}
+
+pub proof fn lemma_all_above_first_start(s: Seq<core::ops::Range<u64>>)
+    requires acks_wf(s), s.len() > 0,
+    ensures forall|x: u64| acks_cover(s, x) ==> x >= s[0].start,
+{
+    reveal(acks_cover);
+    reveal(acks_wf);
+    assert forall|x: u64| acks_cover(s, x) implies x >= s[0].start by {
+        let i = choose|i: int| 0 <= i < s.len() && in_r(#[trigger] s[i], x);
+        if i > 0 { assert(s[0].end < s[i].start); assert(s[0].start < s[0].end); }
+    }
+}
+
+pub proof fn lemma_trim_done_below(o: Seq<core::ops::Range<u64>>, s: Seq<core::ops::Range<u64>>, l: u64)
+    requires ack_prefix_dropped(o, s, l), s.len() > 0, l < s[0].start,
+    ensures ack_trimmed(o, s, l),
+{
+    reveal(ack_prefix_dropped);
+    reveal(ack_trimmed);
+    lemma_all_above_first_start(s);
+}
+
+pub proof fn lemma_trim_done_cut(o: Seq<core::ops::Range<u64>>, s: Seq<core::ops::Range<u64>>, l: u64)
+    requires ack_prefix_dropped(o, s, l), s.len() > 0, s[0].start <= l, l < s[0].end, l < 0x4000_0000_0000_0000,
+    ensures
+        l + 1 < s[0].end ==> ack_trimmed(o, s.update(0, core::ops::Range { start: (l + 1) as u64, end: s[0].end }), l),
+        l + 1 >= s[0].end ==> ack_trimmed(o, s.remove(0), l),
+{
+    reveal(ack_prefix_dropped);
+    reveal(ack_trimmed);
+    lemma_cover_remove(s, 0);
+    lemma_all_above_first_start(s);
+    if l + 1 < s[0].end {
+        let r = core::ops::Range { start: (l + 1) as u64, end: s[0].end };
+        let t = s.update(0, r);
+        assert(acks_wf(t)) by {
+            reveal(acks_wf);
+            assert forall|a: int, b: int| 0 <= a < b < t.len() implies (#[trigger] t[a]).end < (#[trigger] t[b]).start by {
+                assert(s[a].end < s[b].start);
+            }
+            assert forall|a: int| 0 <= a < t.len() implies (#[trigger] t[a]).start < t[a].end && t[a].end <= 0x4000_0000_0000_0000 by {
+                assert(s[a].start < s[a].end);
+            }
+        }
+        // t = s minus the elements of s[0] that are <= l
+        assert forall|x: u64| acks_cover(t, x) <==> acks_cover(s, x) && x > l by {
+            reveal(acks_cover);
+            if acks_cover(t, x) {
+                let i = choose|i: int| 0 <= i < t.len() && in_r(#[trigger] t[i], x);
+                if i == 0 { assert(in_r(s[0], x)); } else {
+                    assert(in_r(s[i], x));
+                    assert(s[0].end < s[i].start) by { reveal(acks_wf); }
+                }
+            }
+            if acks_cover(s, x) && x > l {
+                let i = choose|i: int| 0 <= i < s.len() && in_r(#[trigger] s[i], x);
+                assert(in_r(t[i], x));
+            }
+        }
+    } else {
+        let t = s.remove(0);
+        assert forall|x: u64| acks_cover(t, x) implies x > l by {
+            reveal(acks_cover);
+            reveal(acks_wf);
+            let i = choose|i: int| 0 <= i < t.len() && in_r(#[trigger] t[i], x);
+            assert(t[i] == s[i + 1]);
+            assert(s[0].end < s[i + 1].start);
+        }
+    }
 }
 // ---- end shared ack specs ----
